@@ -13,6 +13,7 @@ of the day, the travel time the method will sample for that visit and the weathe
 from __future__ import annotations
 
 import datetime as dt
+import warnings
 
 from harness import shim
 
@@ -171,6 +172,7 @@ def make_method(cls="method", sites=None, consider_weather=False, name="M", **kw
     sites = sites if sites is not None else [StubSite("s0", 60)]
     props = properties(**kw)
     klass = CLASSES[cls]
+    warnings.simplefilter("ignore", RuntimeWarning)   # crew estimate divides by a zero survey time
     if cls in ("site", "equipment"):
         return klass(name, props, consider_weather, sites=sites,
                      follow_up_schedule=StubFollowUpSchedule(), input_dir=None)
@@ -309,6 +311,18 @@ class DayResult:
     pass
 
 
+def hours_for(budget):
+    """max_work_hours with max_work_hours * 60 == budget exactly: an int, a float on the quarter
+    hour grid, or (odd minute counts of the exhaustive small cases) an exact Fraction"""
+    if budget % 60 == 0:
+        return budget // 60
+    if budget % 15 == 0:
+        return budget / 60.0
+    from fractions import Fraction
+
+    return Fraction(budget, 60)
+
+
 def impl_day(case, record=None):
     """real deploy_crews on a real Workplan of real SurveyPlanners; returns stats, reports, crews
     and the per-visit trace observed by a wrapper around survey_site"""
@@ -319,7 +333,7 @@ def impl_day(case, record=None):
     for j, (sid, S, P, ip, trav, T, scost, w) in enumerate(reqs):
         sites.append(StubSite("s%d" % sid, S, scost, lat=0, lon=j))
         wx.append(w)
-    kw = dict(stationary=stationary, workday=1, crews=crews, travel=0, upfront=upfront)
+    kw = dict(stationary=stationary, workday=1, crews=max(crews, 1), travel=0, upfront=upfront)
     if cost_type == "day":
         kw["per_day"] = unit_cost
         kw["per_site"] = 7
@@ -329,8 +343,12 @@ def impl_day(case, record=None):
     else:  # "none": neither key positive
         kw["per_day"] = 0
     m = make_method(cls, sites=sites or [StubSite("s0", 60)], consider_weather=consider_weather, **kw)
-    # the budget in minutes is budget = workday * 60: put fractional workdays through as exact floats
-    m._max_work_hours = budget // 60 if budget % 60 == 0 else budget / 60.0
+    if crews == 0 and not stationary:
+        # a method whose crews are all gone: the constructor cannot produce it (crew_count 0 means
+        # "estimate"), the loop of deploy_crews can still be asked what it does without crews
+        m._crews = 0
+        m._crew_reports = []
+    m._max_work_hours = hours_for(budget)
     assert m._max_work_hours * 60 == budget
     TravelScript(m, [])
     trace = []
